@@ -425,4 +425,26 @@ def mstep (cfg : Cfg) (c : MSt) : MOp → MSt × Option Err
 
 def mrun (cfg : Cfg) (ops : List MOp) (c : MSt) : MSt := ops.foldl (fun c op => (mstep cfg c op).1) c
 
+/-! ### Deciders for the hypotheses of the theorems (Props/C19)
+
+The terminal theorems (`no_mixture`, `end_message_shown`) assume that no message, indicator value or
+literal part of the format contains a character the terminal interprets (CR, LF, ESC); the frame-shape
+theorems assume that there is an indicator value (the constructor rejects fewer than two).  Both are
+decided here on the configuration of every correspondence case (driver key `wf`). -/
+
+/-- not CR, LF, ESC -/
+def cleanChB (ch : Char) : Bool := ch != '\r' && ch != '\n' && ch != ESC
+def cleanB (s : Str) : Bool := s.all cleanChB
+
+def cleanSegB : Seg → Bool
+  | .lit s => cleanB s
+  | _ => true
+
+/-- every message of the run, every indicator value and every literal of the format is clean -/
+def cleanCfgB (cfg : Cfg) : Bool :=
+  (msgs cfg).all cleanB && cfg.values.all cleanB && cfg.fmt.all cleanSegB
+
+/-- there is an indicator value -/
+def hasValuesB (cfg : Cfg) : Bool := decide (0 < cfg.values.length)
+
 end Clikit.Spinner
